@@ -46,3 +46,106 @@ Definition real_root (binary : bool) (tmpdir : list N) : list N :=
 Definition unpacked_member (binary : bool) (tmpdir member : list N) : list N := real_root binary tmpdir ++ member.
 Definition printed_member (binary : bool) (tmpdir filename member : list N) : list N :=
   fake_path N.eqb (real_root binary tmpdir) (filename ++ [47%N]) (unpacked_member binary tmpdir member).
+
+(* ---------------------------------------------------------------------------------------------------------------
+   The rest of lib/cli.py as run for its effect on stdout (Model/CliPy.v: io = lines written + Ret / Raise).
+   External code is an argument, as in Generated/CliSrc.v: the real checker (checker_check), subprocesses (check_call),
+   the temporary directory (mkdtemp / cleanup), os.walk, islink / isfile, the tag registry and Tag.format.
+   Proofs/CliSrc.v proves the translation of the Python text equal to these definitions. *)
+From I18n Require Import Model.CliPy.
+From Coq Require Import ZArith.
+
+Definition s_unknown_file_type : str := [117; 110; 107; 110; 111; 119; 110; 45; 102; 105; 108; 101; 45; 116; 121; 112; 101]%N.
+Definition s_deb : str := [46; 100; 101; 98]%N.
+Definition s_dsc : str := [46; 100; 115; 99]%N.
+Definition s_tmp_prefix : str := [105; 49; 56; 110; 115; 112; 101; 99; 116; 111; 114; 46; 100; 101; 98; 46]%N.   (* i18nspector.deb. *)
+Definition s_dpkg_deb : str := [100; 112; 107; 103; 45; 100; 101; 98]%N.
+Definition s_dpkg_source : str := [100; 112; 107; 103; 45; 115; 111; 117; 114; 99; 101]%N.
+Definition s_x : str := [45; 120]%N.
+Definition s_no_copy : str := [45; 45; 110; 111; 45; 99; 111; 112; 121]%N.
+Definition s_no_check : str := [45; 45; 110; 111; 45; 99; 104; 101; 99; 107]%N.
+
+(* a directory / file name as tempfile and the command line give it: not empty, no trailing "/" *)
+Definition path_ok (p : str) : Prop := p <> [] /\ str_endswith p [47%N] = false.
+
+Section CliModel.
+  Context {L X T E O : Type}.
+
+  (* cli.Checker.tag: nothing for an ignored tag; an unknown tag is a DataIntegrityError; otherwise one line, in colour mode *)
+  Definition cli_tag (get_tag : str -> option T) (tag_format : T -> str -> E -> bool -> res X L)
+      (opts : options O) (fake_path tagname : str) (extra : E) : io L X unit :=
+    if set_mem tagname (o_ignore_tags opts) then io_ret tt
+    else match get_tag tagname with
+         | None => io_raise EDataIntegrity
+         | Some t => match tag_format t fake_path extra true with Ret s => io_write [s] | Raise e => io_raise e end
+         end.
+
+  (* copy_options: a NEW value; the argument is not changed (values are immutable here, so this is what the function returns) *)
+  Definition copy_options (o : options O) (us : list opt_update) : options O := fold_left apply_update us o.
+
+  (* run f on the elements in order; stop at the first that raises *)
+  Fixpoint io_for {A} (f : A -> io L X unit) (l : list A) : io L X unit :=
+    match l with [] => io_ret tt | a :: r => io_bind (f a) (fun _ => io_for f r) end.
+
+  (* check_deb *)
+  Definition deb_kind (filename : str) : option bool :=
+    if str_endswith filename s_deb then Some true else if str_endswith filename s_dsc then Some false else None.
+  (* the options the members of a package are checked with: unknown-file-type is ignored in addition, paths under real_root are
+     printed under <filename>/ *)
+  Definition deb_options (o : options O) (binary : bool) (tmpdir filename : str) : options O :=
+    mkOptions (o_unpack_deb o) (o_jobs o) (s_unknown_file_type :: o_ignore_tags o)
+              (Some (real_root binary tmpdir, filename ++ [47%N])) (o_rest o).
+  Definition unpack_argv (binary : bool) (filename tmpdir : str) : list str :=
+    if binary then [s_dpkg_deb; s_x; filename; tmpdir]
+    else [s_dpkg_source; s_no_copy; s_no_check; s_x; filename; real_root false tmpdir].
+  (* the members that are checked, in os.walk order: regular files that are not symbolic links *)
+  Definition deb_members (islink isfile : str -> bool) (walk : list (str * list str * list str)) : list str :=
+    filter (fun p => andb (negb (islink p)) (isfile p))
+           (flat_map (fun rdf => map (path_join (fst (fst rdf))) (snd rdf)) walk).
+  Definition check_deb (check_call : list str -> bool -> io L X unit) (mkdtemp : str -> res X str) (cleanup : str -> io L X unit)
+      (os_walk : str -> list (str * list str * list str)) (islink isfile : str -> bool)
+      (check_file : str -> options O -> io L X unit) (filename : str) (o : options O) : io L X unit :=
+    match deb_kind filename with
+    | None => io_raise EUnsupportedFileType
+    | Some binary =>
+      io_bind (io_lift (mkdtemp s_tmp_prefix)) (fun tmpdir =>
+        io_finally
+          (io_bind (check_call (unpack_argv binary filename tmpdir) (negb binary)) (fun _ =>
+           io_for (fun p => check_file p (deb_options o binary tmpdir filename)) (deb_members islink isfile (os_walk tmpdir))))
+          (cleanup tmpdir))
+    end.
+
+  (* check_file: with --unpack-deb a package is unpacked; anything that is not a package is checked as a regular file *)
+  Definition check_file (checker_check : str -> options O -> io L X unit) (check_deb_ : str -> options O -> io L X unit)
+      (path : str) (o : options O) : io L X unit :=
+    if o_unpack_deb o then io_try (check_deb_ path o) is_unsupported_file_type (checker_check path o)
+    else checker_check path o.
+
+  (* check_all, with the executor an argument: sequential when there is at most one file or one job *)
+  Definition check_all (executor_map : Z -> (str -> io L X (list L)) -> list str -> list (io L X (list L)))
+      (check_file_ : str -> options O -> io L X unit) (paths : list str) (o : options O) : io L X unit :=
+    if orb (Z.of_nat (length paths) <=? 1)%Z (o_jobs o <=? 1)%Z then io_for (fun p => check_file_ p o) paths
+    else io_for (fun m => io_bind m io_write) (executor_map (o_jobs o) (fun p => io_capture (check_file_ p o)) paths).
+
+  (* parse_jobs (argparse type of -j): "auto" or a positive integer *)
+  Definition parse_jobs (cpu_count : Z) (py_int : str -> res X Z) (s : str) : io L X Z :=
+    if str_eqb s [97; 117; 116; 111]%N then io_ret cpu_count
+    else match py_int s with
+         | Ret n => if (n <=? 0)%Z then io_raise EValueError else io_ret n
+         | Raise e => io_raise e
+         end.
+End CliModel.
+
+(* ProcessPoolExecutor.map as Model/Cli.v models it: the calls complete in the order pi; the results are yielded in submission order *)
+Fixpoint lookup_result {B} (i : nat) (rs : list (nat * B)) : option B :=
+  match rs with
+  | [] => None
+  | (j, o) :: r => if Nat.eqb i j then Some o else lookup_result i r
+  end.
+Definition executor_map_model {B} (pi : list nat) (f : str -> B) (fs : list str) : list B :=
+  flat_map (fun i => match lookup_result i (flat_map (fun j => match nth_error fs j with Some x => [(j, f x)] | None => [] end) pi) with
+                     | Some o => [o] | None => [] end) (seq 0 (length fs)).
+
+(* main: jobs = -j, else --parallel, else 1; every run starts with no ignored tag and no fake root *)
+Definition main_normalise (jobs parallel : option Z) : option Z * list str * option (str * str) :=
+  (Some (match jobs with Some j => j | None => match parallel with Some p => p | None => 1%Z end end), [], None).
